@@ -206,7 +206,13 @@ def main():
             rels.append({"rel": "same_off", "x": 1, "y": kR})
         for o in objs:
             o["factory"] = fac
-        cases.append(case(objs, evs, rels, kind=kind, bad=bad, skip=["evaluate.viol", "update.viol"], timeout=8))
+        kw = {}
+        if rng.random() < 0.3:
+            # first a twin of object 1 under the next larger default unit (the same text then means 1000 times as many samples)
+            bigger = {"ms": "s", "us": "ms"}.get(objs[0]["unit"])
+            if bigger:
+                kw["intruder"] = {"unit": bigger, "offline": kind == "off", "pastify": kind == "past"}
+        cases.append(case(objs, evs, rels, kind=kind, bad=bad, skip=["evaluate.viol", "update.viol"], timeout=8, **kw))
     # ---- dense time: the same durations in different notations, default unit s / ms, stamps in the default unit
     dcases = []
     for i in range(n // 3):
